@@ -1,6 +1,8 @@
 package cashu
 
 import (
+	"encoding/hex"
+
 	v "github.com/elnosh/gonuts/verifrt"
 )
 
@@ -48,4 +50,90 @@ func VHarnessDecodeAny() {
 	} else {
 		v.Reach("rejected")
 	}
+}
+
+func vhHexOf(label string) string { return hex.EncodeToString([]byte(v.Str(label))) }
+
+func vhTokProof(tag string) Proof {
+	p := Proof{Amount: v.U64(tag + ".amount"), Id: vhHexOf(tag + ".idbytes"), Secret: v.Str(tag + ".secret"),
+		C: vhHexOf(tag + ".Cbytes"), Witness: v.Str(tag + ".witness")}
+	if v.Int(tag+".dleq", 0, 1) == 1 {
+		p.DLEQ = &DLEQProof{E: vhHexOf(tag + ".e"), S: vhHexOf(tag + ".s"), R: vhHexOf(tag + ".r")}
+	}
+	return p
+}
+
+func vhSameProof(a, b Proof, withDLEQ bool) bool {
+	same := v.And(a.Amount == b.Amount, a.Id == b.Id, a.Secret == b.Secret, a.C == b.C, a.Witness == b.Witness)
+	if withDLEQ && a.DLEQ != nil {
+		if b.DLEQ == nil {
+			return false
+		}
+		return v.And(same, a.DLEQ.E == b.DLEQ.E, a.DLEQ.S == b.DLEQ.S, a.DLEQ.R == b.DLEQ.R)
+	}
+	return v.And(same, b.DLEQ == nil)
+}
+
+// C14 (b): building a V3 / V4 token from arbitrary proofs, serialising it and decoding the string gives back the mint URL,
+// the same proofs (V4 groups them by keyset id: compared as a multiset) and the amount; DLEQ complete when requested.
+func VHarnessTokenRoundTrip() {
+	n := v.Int("nProofs", 0, 2)
+	proofs := make(Proofs, n)
+	for i := range proofs {
+		proofs[i] = vhTokProof("p" + string(rune('0'+i)))
+	}
+	orig := append(Proofs{}, proofs...) // NewTokenV3 clears DLEQ in place
+	mint := v.Str("mint")
+	includeDLEQ := v.Bool("includeDLEQ")
+	version := v.Int("version", 3, 4)
+	var tok Token
+	var err error
+	if version == 3 {
+		var t TokenV3
+		t, err = NewTokenV3(proofs, mint, Sat, includeDLEQ)
+		tok = t
+	} else {
+		var t TokenV4
+		t, err = NewTokenV4(proofs, mint, Sat, includeDLEQ)
+		tok = t
+	}
+	if err != nil {
+		// the only refusal for well-formed hex fields: a V4 token asked to carry a DLEQ proof without r
+		partial := false
+		for _, p := range orig {
+			partial = v.Or(partial, p.DLEQ != nil && len(p.DLEQ.R) == 0)
+		}
+		v.Assert(v.And(version == 4, includeDLEQ, partial), "C14 a token of well-formed proofs can be built (V4 refuses only a DLEQ proof without r)")
+		v.Reach("not-built")
+		return
+	}
+	s, err := tok.Serialize()
+	v.Assert(err == nil, "C14 a built token serialises")
+	if err != nil {
+		return
+	}
+	dec, err := DecodeToken(s)
+	v.Assert(err == nil, "C14 a serialised token decodes")
+	if err != nil {
+		return
+	}
+	v.Assert(dec.Mint() == mint, "C14 the decoded token carries the mint URL")
+	got := dec.Proofs()
+	v.Assert(len(got) == n, "C14 the decoded token carries as many proofs as were put in")
+	if len(got) == n {
+		switch n {
+		case 1:
+			v.Assert(vhSameProof(orig[0], got[0], includeDLEQ), "C14 the decoded proof equals the original (amount, id, secret, C, witness, DLEQ when requested)")
+		case 2:
+			v.Assert(v.Or(v.And(vhSameProof(orig[0], got[0], includeDLEQ), vhSameProof(orig[1], got[1], includeDLEQ)),
+				v.And(vhSameProof(orig[0], got[1], includeDLEQ), vhSameProof(orig[1], got[0], includeDLEQ))),
+				"C14 the decoded proofs equal the originals (amount, id, secret, C, witness, DLEQ when requested)")
+		}
+	}
+	sum := uint64(0)
+	for _, p := range orig {
+		sum += p.Amount
+	}
+	v.Assert(v.And(dec.Amount() == sum, tok.Amount() == sum), "C14 the token amount is the sum of its proofs, before and after the round trip")
+	v.Reach("round-trip")
 }
